@@ -356,6 +356,18 @@ def run_c03(run: core.Run, n: int) -> None:
     if run.first:
         run_d4a(run, "C03", stats)
         run_g3(run, "C03", stats)
+        for text, e0 in mk.G5_CASES:       # known finding G5: ordering operators on plain string variables
+            env = {"python_full_version": "3.9.1", "python_version": "3.9", "platform_release": "5.10", "implementation_version": "3.9.1",
+                   "platform_version": "#1", "extra": "", "os_name": "posix", "sys_platform": "linux", "platform_machine": "x86_64",
+                   "platform_system": "Linux", "implementation_name": "cpython", "platform_python_implementation": "CPython"}
+            env.update(e0)
+            want, got = PkgMarker(text).evaluate(env), ev(mk.parse_marker(text), env)
+            stats["oracle"] += 1
+            if got != want:
+                f = core.Failure("eval|" + text + "|" + enc_env(env), f"parse_marker({text!r}).evaluate = {got}, packaging says {want}",
+                                 {"op": "eval", "text": text, "env": env})
+                f.family = mk.known_family([text], env)
+                run.fail(f)
     # exhaustive over the single-layer pools: every ordered pair of atoms / grouped atoms on one variable joined by
     # `and` and by `or` in ONE text, so that parse_marker's own folding meets every pair (seed C03d: a `!=` group and an
     # `in` atom it only partly excludes, inside one conjunction)
@@ -390,6 +402,38 @@ def run_c03(run: core.Run, n: int) -> None:
                         run.fail(f)
                         if not fam:
                             break
+    # atoms whose specifier cannot be built (not versions / not comma separated lists): legal PEP 508, evaluated as
+    # strings by packaging; outside the Lean model (an atom there always has its specifier), judged against packaging
+    # only (fixed defect D26: parse_marker raised InvalidSpecifier as soon as two such atoms on one variable met)
+    if run.first:
+        odd = ["python_version in '2.7 3.6'", "python_version not in '3.6 3.7'", "platform_release == '5.4.0-generic'",
+               "platform_release != '5.4.0-aws'", "'microsoft' in platform_release", "platform_release >= '5'",
+               "python_version >= '2.7'", "python_version == '3.6'", "'2.' not in python_version", "platform_release == '5.4.0'",
+               "python_full_version in '3.6.1 3.7.2'", "python_full_version >= '3.6.1'", "python_version === '3.6'",
+               "python_full_version === '3.6'", "'3.7.2' === python_full_version", "python_version != '3.6'"]
+        oenvs = [dict(base, python_version=pv, python_full_version=pf, platform_release=rel)
+                 for pv, pf in (("2.7", "2.7.18"), ("3.6", "3.6.1"), ("3.7", "3.7.2"), ("3.10", "3.10.0"))
+                 for rel in ("5.4.0", "5.4.0-generic", "5.10.16.3-microsoft-standard")]
+        for a, b in itertools.product(odd, odd):
+            for glue in (" and ", " or "):
+                text = a + glue + b
+                pm = PkgMarker(text)
+                try:
+                    m = mk.parse_marker(text)
+                except Exception as ex:  # noqa: BLE001
+                    run.fail(core.Failure("parse|" + text, f"parse_marker({text!r}) raised {type(ex).__name__}", {"op": "parse", "text": text}))
+                    continue
+                for env in oenvs:
+                    stats["oracle"] += 1
+                    try:
+                        want = pm.evaluate(env)
+                    except Exception:  # noqa: BLE001
+                        continue
+                    got = ev(m, env)
+                    if got != want:
+                        run.fail(core.Failure("eval|" + text + "|" + enc_env(env), f"parse_marker({text!r}).evaluate = {got}, packaging says {want}",
+                                              {"op": "eval", "text": text, "env": env}))
+                        break
     for _ in range(n):
         text = mk.marker_text(rng, rng.choice([0, 1, 2, 3]))
         envs = mk.envs_for([text], rng, 10)
@@ -798,6 +842,19 @@ def replay(data: dict) -> bool:
             want = (x and y) if e.kind == "and" else (x or y)
             return ev(m, env) != want
         return False
+    if r["op"] == "rt":
+        # C07: str(parse(text)) is accepted by packaging and parse_marker and evaluates like the marker
+        m = mk.parse_marker(r["text"])
+        s = str(m)
+        try:
+            back = mk.parse_marker(s)
+            PkgMarker(s)
+        except Exception:  # noqa: BLE001
+            return True
+        if enc_marker(back) != enc_marker(m):      # another literal / another structure: some environment tells them apart
+            return True
+        import random
+        return any(ev(back, env) != ev(m, env) for env in mk.envs_for([r["text"]], random.Random(0), 40))
     if r["op"] == "eval":
         env = {k: (set(v) if isinstance(v, list) else v) for k, v in r["env"].items()}
         try:
